@@ -83,6 +83,10 @@ pub proof fn lemma_same_config_wf<M: Fn(CharClassID, char) -> bool>(a: ScannerIm
     assert forall|i: int| 0 <= i < b.scanner_modes@.len() implies mode_wf(#[trigger] b.scanner_modes@[i], b.scanner_modes@.len() as int) by {
         assert(mode_wf(a.scanner_modes@[i], a.scanner_modes@.len() as int));
     }
+    assert forall|i: int| 0 <= i < b.scanner_modes@.len() implies cls_functional(&*b.match_char_class, core((#[trigger] b.scanner_modes@[i]).dfa)) by {
+        assert(cls_functional(&*a.match_char_class, core(a.scanner_modes@[i].dfa)));
+        assert(dfa_core_eq(a.scanner_modes@[i].dfa, b.scanner_modes@[i].dfa));
+    }
 }
 
 pub proof fn lemma_same_config_trans<M: Fn(CharClassID, char) -> bool>(a: ScannerImpl<M>, b: ScannerImpl<M>, c: ScannerImpl<M>)
